@@ -161,6 +161,13 @@ def gen_hostile(seed, opts=None):
           'resp': {'mode': 'now', 'dlen': 32, 'mlen': None}}
     script.append({'at': t * MS, 'frame': {'t': 'REQUEST_RESPONSE', 'sid': sid, 'data': app.content(iid, 'q', 0, 'D', 24).hex()}})
     interactions.append(ia)
+    rng2 = random.Random(seed ^ 0x0B0E)  # separate stream: the plans above stay what they were
+    if rng2.random() < 0.5:
+        # the endpoint's own probe: a request it issues itself after everything hostile has arrived must still go out
+        # (e.g. an unsolicited LEASE on a connection without leasing must not start to throttle it)
+        interactions.append({'id': iid + 1, 'kind': 'rr', 'by': role, 'at': (t - 10) * MS, 'own_probe': True,
+                             'req': {'dlen': 16, 'mlen': None}})
+        plan['auto']['respond'] = 'complete'
     plan['script'] = script
     plan['interactions'] = interactions
     plan['offending_sids'] = sorted({s for s in offending if s is not None})
@@ -182,7 +189,11 @@ def oracle_c12_hostile(world):
           % g.get('input_len', -1), g['seq'], input_len=g.get('input_len'), **facts0)
     out_dir = 's2c' if role == 'server' else 'c2s'
     emitted = [e for e in h if e['k'] == 'wire' and e['dir'] == out_dir and e['seq'] < mark]
-    valid = {ia['sid']: ia for ia in plan['interactions']}
+    valid = {ia['sid']: ia for ia in plan['interactions'] if ia.get('by') == 'peer'}
+    if any(ia.get('own_probe') for ia in plan['interactions']):
+        world.probe('own_probe', 1)
+        if not any(e['f']['type'] == 'REQUEST_RESPONSE' for e in emitted):
+            V('own_request_not_sent', 'a request the endpoint issued after the hostile input was never written', None, **facts0)
     offending = set(plan.get('offending_sids', []))
     # valid requests (probe included) answered correctly
     for sid, ia in valid.items():
